@@ -271,6 +271,27 @@ pub fn replay(cases: &str, verdicts: &str) {
                     chk(&mut v, "Matrix.sum", guard(|| m.sum()), es);
                     chk(&mut v, "Matrix.norm", guard(|| m.norm()), en);
                 }
+                // IEEE special values in a sum: an infinity at position k makes the sum that infinity, two infinities of opposite
+                // sign or a NaN make it NaN, an overflowing partial sum of finite terms is +-inf - wherever in the vector they sit
+                if n >= 1 {
+                    for k in [0usize, n / 2, n - 1] {
+                        for (sv, name) in [(f64::INFINITY, "+inf"), (f64::NEG_INFINITY, "-inf"), (f64::NAN, "nan")] {
+                            let mut xs = x.clone(); xs[k] = sv;
+                            let g = guard(|| sum(&xs));
+                            let gm = guard(|| mean(&xs));
+                            let ok = |g: Option<f64>| g.map(|g| if sv.is_nan() { g.is_nan() } else { g == sv }).unwrap_or(false);
+                            v.check(ok(g) && ok(gm) && ok(guard(|| Vector::new(xs.clone()).sum())), "sum / mean with a special value", &format!("{} {}", lc, name), &json!({"case": c, "position": k, "value": name}), json!({"sum": g.map(fj), "mean": gm.map(fj)}));
+                        }
+                        if n >= 2 {
+                            let mut xs = x.clone(); xs[k] = f64::INFINITY; xs[(k + 1) % n] = f64::NEG_INFINITY;
+                            let g = guard(|| sum(&xs));
+                            v.check(g.map(|g| g.is_nan()).unwrap_or(false), "sum with both infinities", lc, &json!({"case": c, "position": k}), json!(g.map(fj)));
+                            let mut xs = x.clone(); xs[k] = f64::MAX; xs[(k + 1) % n] = f64::MAX;
+                            let g = guard(|| sum(&xs));
+                            v.check(g == Some(f64::INFINITY), "sum overflowing", lc, &json!({"case": c, "position": k}), json!(g.map(fj)));
+                        }
+                    }
+                }
                 if n >= 1 {
                     // log-domain reductions: constant input of any magnitude; shift identity; definition on small data
                     for cst in [-10000.0f64, -3.5, 0.0, 700.0, 10000.0] {
